@@ -19,6 +19,7 @@ CheckOf(e) ==
     [] e.e = "New" -> NewCheck
     [] e.e = "Run" -> RunCheck(e)
     [] e.e = "Obs" -> ObsCheck(e)
+    [] e.e = "Esc" -> EscCheck(e)
     [] e.e = "Reset" -> ResetCheck(e.comb, e.n)
     [] OTHER -> "harness.unknownEvent"
 
@@ -27,6 +28,7 @@ UpdOf(e) ==
     [] e.e = "New" -> NewUpd
     [] e.e = "Run" -> RunUpd(e)
     [] e.e = "Obs" -> ObsUpd(e)
+    [] e.e = "Esc" -> EscUpd(e)
     [] e.e = "Reset" -> ResetUpd(e.comb, e.n)
 
 TNext == /\ verdict = "ok"
